@@ -592,7 +592,7 @@ func (p *Path) global(g *ssa.Global) *Object {
 // values can be stored and passed around but never branched on or asserted.
 func (p *Path) visitTolerant(fr *frame, in ssa.Instruction) (k cont) {
 	_, isCall := in.(*ssa.Call)
-	top := p.depth <= 1
+	top := fr.fn.Name() == "init" || strings.HasPrefix(fr.fn.Name(), "init#")
 	if !isCall && !top {
 		return p.visit(fr, in)
 	}
